@@ -96,6 +96,8 @@ def generate_epi(rng, i):
             a = gen_epi.gen_action(rng, env)
             a[victim] = {"long": 0.3, "short": -0.3, "flat": 0.0}[hold]
             op["action"] = a
+    if expiry_arm and rng.random() < 0.5:
+        env["prior_env"] = True         # the transmitter served another environment (other contracts) before this one was built
     clock0 = "1999-01-01T00:00:00"
     if expiry_arm and rng.random() < 0.6:
         clock0 = "2019-06-03T00:00:00"          # a stale clock, past the expiry, when the environment is built
@@ -148,6 +150,8 @@ def execute_epi(scenario):
             probe("env_future_expires_inside_the_episode")
             if meta.get("stale_clock"):
                 probe("env_built_under_a_clock_past_the_expiry")
+            if env_spec.get("prior_env"):
+                probe("env_second_on_its_transmitter")
         for st in ep["steps"]:
             if st["done_before"]:
                 break
